@@ -24,13 +24,13 @@ fn vec_of<const N: usize>(a: [u8; N]) -> Vec<u8> {
 fn is_expand(c: &Call, prk: &[u8], label: &[u8], context: &[u8], len: usize) -> bool {
     c.f == F::Expand
         && c.len == len
-        && rk::eq(&c.a, prk)
-        && rk::eq(&c.b, &rk::kdf_label(len as u16, label, context))
+        && rk::eq(prk, &c.a)
+        && rk::eq(&rk::kdf_label(len as u16, label, context), &c.b)
         && c.out.len() == len
 }
 
 fn is_extract(c: &Call, salt: &[u8], ikm: &[u8]) -> bool {
-    c.f == F::Extract && rk::eq(&c.a, salt) && rk::eq(&c.b, ikm) && c.out.len() == NH
+    c.f == F::Extract && rk::eq(salt, &c.a) && rk::eq(ikm, &c.b) && c.out.len() == NH
 }
 
 macro_rules! zstubs {
@@ -58,7 +58,7 @@ fn expand_case<const L: usize, const C: usize>(len: Option<usize>) {
                 None => NH,
             };
             assert!(is_expand(&log.calls[0], &secret, &label, &ctx, want_len), "KDF.Expand(secret, KDFLabel(length, MLS 1.0 +label, context), length)");
-            assert!(rk::eq(&out, &log.calls[0].out), "result is the Expand output");
+            assert!(rk::eqn(&out, &log.calls[0].out, want_len), "result is the Expand output");
             forget(out);
         }
         Err(e) => {
@@ -97,7 +97,7 @@ zstubs! {
             Ok(out) => {
                 assert!(log.calls.len() == 1);
                 assert!(is_expand(&log.calls[0], &secret, &label, &[], NH));
-                assert!(rk::eq(&out, &log.calls[0].out));
+                assert!(rk::eqn(&out, &log.calls[0].out, NH));
                 forget(out);
             }
             Err(e) => { forget(e); assert!(false); }
@@ -133,11 +133,11 @@ fn ratchet_step_case(g: u32) {
             assert!(n_i < 3 && k_i < 3 && s_i < 3 && n_i != k_i && k_i != s_i && n_i != s_i,
                 "the three calls are DeriveTreeSecret(secret_g, nonce|key|secret, g, Nn|Nk|Nh)");
             let (nonce, key, generation) = message_key_parts(&k);
-            assert!(rk::eq(nonce, &log.calls[n_i].out), "nonce is the \"nonce\" output");
-            assert!(rk::eq(key, &log.calls[k_i].out), "key is the \"key\" output");
+            assert!(rk::eqn(nonce, &log.calls[n_i].out, NN), "nonce is the nonce output");
+            assert!(rk::eqn(key, &log.calls[k_i].out, NK), "key is the key output");
             assert!(generation == g, "key data carries its generation");
             assert!(ratchet_generation(&r) == g + 1, "generation advanced by one");
-            assert!(rk::eq(ratchet_secret(&r), &log.calls[s_i].out), "next ratchet secret is the \"secret\" output");
+            assert!(rk::eqn(ratchet_secret(&r), &log.calls[s_i].out, NH), "next ratchet secret is the secret output");
             #[cfg(not(feature = "fs_noooo"))]
             assert!(ratchet_history_len(&r) == 0);
             forget(k);
@@ -183,7 +183,7 @@ fn ratchet_init_case(app: bool) {
             assert!(log.calls.len() == 1);
             let label: &[u8] = if app { b"application" } else { b"handshake" };
             assert!(is_expand(&log.calls[0], &leaf, label, &[], NH));
-            assert!(rk::eq(ratchet_secret(&r), &log.calls[0].out));
+            assert!(rk::eqn(ratchet_secret(&r), &log.calls[0].out, NH));
             assert!(ratchet_generation(&r) == 0);
             forget(r);
         }
@@ -209,8 +209,8 @@ fn consume_root_case(leaf_count: u32) {
             assert!(is_expand(&log.calls[ri], &enc, b"tree", b"right", NH));
             match (l, r) {
                 (Some(l), Some(r)) => {
-                    assert!(rk::eq(&l, &log.calls[li].out), "left child holds the \"left\" output");
-                    assert!(rk::eq(&r, &log.calls[ri].out), "right child holds the \"right\" output");
+                    assert!(rk::eqn(&l, &log.calls[li].out, NH), "left child holds the left output");
+                    assert!(rk::eqn(&r, &log.calls[ri].out, NH), "right child holds the right output");
                     forget(l);
                     forget(r);
                 }
@@ -278,20 +278,17 @@ zstubs! {
             Ok(o) => {
                 assert!(log.calls.len() == 13, "2 extracts + 2 context expansions + 9 DeriveSecret");
                 assert!(is_extract(&log.calls[0], &init, &commit), "joiner seed = Extract(init_secret, commit_secret)");
-                let seed = log.calls[0].out.clone();
+                let seed = rk::fix::<NH>(&log.calls[0].out);
                 assert!(is_expand(&log.calls[1], &seed, b"joiner", &ctx_enc, NH));
-                let joiner = log.calls[1].out.clone();
-                assert!(rk::eq(&o.joiner_secret, &joiner));
+                let joiner = rk::fix::<NH>(&log.calls[1].out);
+                assert!(rk::eqn(&o.joiner_secret, &joiner, NH));
                 assert!(is_extract(&log.calls[2], &joiner, &psk), "epoch seed = Extract(joiner_secret, psk_secret)");
-                let eseed = log.calls[2].out.clone();
+                let eseed = rk::fix::<NH>(&log.calls[2].out);
                 assert!(is_expand(&log.calls[3], &eseed, b"epoch", &ctx_enc, NH));
-                let es = log.calls[3].out.clone();
+                let es = rk::fix::<NH>(&log.calls[3].out);
                 macro_rules! derived {
                     ($field:expr, $label:expr) => {
-                        match find_expand(&log, &es, $label, &[], NH) {
-                            Some(i) => assert!(rk::eq(&$field, &log.calls[i].out), "secret is DeriveSecret(epoch_secret, label)"),
-                            None => assert!(false, "no DeriveSecret(epoch_secret, label) call"),
-                        }
+                        assert!(derived_from(&log, 4, 13, false, &es, $label, &[], NH, &$field), "secret is DeriveSecret(epoch_secret, label)");
                     };
                 }
                 derived!(o.sender_data_secret, b"sender data");
@@ -351,7 +348,7 @@ fn psk_case<const N: usize>(resumption_first: bool) {
         Ok(s) => {
             assert!(log.calls.len() == 3 * N);
             let zero = rk::zeros(NH);
-            let mut running = rk::zeros(NH);
+            let mut running = [0u8; NH];
             let mut i = 0;
             while i < N {
                 let kind = if resumption_first && i == 0 {
@@ -361,12 +358,12 @@ fn psk_case<const N: usize>(resumption_first: bool) {
                 };
                 let label = rk::psk_label(&kind, &nonces[i], i as u16, N as u16);
                 assert!(is_extract(&log.calls[3 * i], &zero, &values[i]), "psk_extracted = Extract(0, psk_i)");
-                assert!(is_expand(&log.calls[3 * i + 1], &log.calls[3 * i].out, b"derived psk", &label, NH), "psk_input = ExpandWithLabel(psk_extracted, derived psk, PSKLabel)");
-                assert!(is_extract(&log.calls[3 * i + 2], &log.calls[3 * i + 1].out, &running), "psk_secret_i+1 = Extract(psk_input_i, psk_secret_i)");
-                running = log.calls[3 * i + 2].out.clone();
+                assert!(is_expand(&log.calls[3 * i + 1], &rk::fix::<NH>(&log.calls[3 * i].out), b"derived psk", &label, NH), "psk_input = ExpandWithLabel(psk_extracted, derived psk, PSKLabel)");
+                assert!(is_extract(&log.calls[3 * i + 2], &rk::fix::<NH>(&log.calls[3 * i + 1].out), &running), "psk_secret_i+1 = Extract(psk_input_i, psk_secret_i)");
+                running = rk::fix::<NH>(&log.calls[3 * i + 2].out);
                 i += 1;
             }
-            assert!(rk::eq(&s, &running), "result is the last chained secret (0^Nh for the empty list)");
+            assert!(rk::eqn(&s, &running, NH), "result is the last chained secret (0^Nh for the empty list)");
             forget(s);
         }
         Err(e) => { forget(e); assert!(false, "psk calculation failed"); }
@@ -384,39 +381,35 @@ zstubs! { #[kani::unwind(34)] fn c18_psk_chain_2_mixed() { psk_case::<2>(true); 
 
 /// MLS-Exporter(Label, Context, Length) = ExpandWithLabel(DeriveSecret(exporter_secret, Label), "exported", Hash(Context), Length)
 fn export_case<const L: usize, const C: usize>(len: usize) {
-    let mut log = Log::new(16);
+    let mut log = Log::new(4);
     let uf = Uf::new(&mut log);
-    // obtain a key schedule with a known exporter secret through the real derivation
-    let (ctx, _enc) = sym_context();
-    let o = match from_joiner_v(&uf, vec_of(any_bytes::<NH>()), &ctx, 2, rk::zeros(NH)) {
-        Ok(o) => o,
-        Err(e) => { forget(e); assert!(false); return; }
-    };
-    let exporter = o.exporter_secret.clone();
-    let before = log.calls.len();
+    let exporter = vec_of(any_bytes::<NH>());
+    let ks = key_schedule_with_exporter(exporter.clone());
     let label = vec_of(any_bytes::<L>());
     let context = vec_of(any_bytes::<C>());
-    match o.key_schedule.export_secret(&label, &context, len, &uf) {
+    match ks.export_secret(&label, &context, len, &uf) {
         Ok(out) => {
-            assert!(log.calls.len() == before + 3);
-            let mut d = before + 3;
-            let mut h = before + 3;
-            let mut i = before;
-            while i < before + 3 {
-                if is_expand(&log.calls[i], &exporter, &label, &[], NH) { d = i; }
-                if log.calls[i].f == F::Hash && rk::eq(&log.calls[i].a, &context) { h = i; }
-                i += 1;
+            assert!(log.calls.len() == 3, "DeriveSecret, Hash(context), ExpandWithLabel - for every context, the empty one included");
+            let c0 = &log.calls[0];
+            let c1 = &log.calls[1];
+            let d0 = is_expand(c0, &exporter, &label, &[], NH);
+            let h1 = c1.f == F::Hash && rk::eq(&context, &c1.a);
+            let d1 = is_expand(c1, &exporter, &label, &[], NH);
+            let h0 = c0.f == F::Hash && rk::eq(&context, &c0.a);
+            assert!((d0 && h1) || (d1 && h0), "DeriveSecret(exporter_secret, label) and Hash(context) are both computed");
+            let o0 = rk::fix::<NH>(&c0.out);
+            let o1 = rk::fix::<NH>(&c1.out);
+            if d0 && h1 {
+                assert!(is_expand(&log.calls[2], &o0, b"exported", &o1, len), "ExpandWithLabel(derived, exported, Hash(context), len)");
+            } else {
+                assert!(is_expand(&log.calls[2], &o1, b"exported", &o0, len), "ExpandWithLabel(derived, exported, Hash(context), len)");
             }
-            assert!(d < before + 3 && h < before + 3, "DeriveSecret(exporter_secret, label) and Hash(context) are computed");
-            let last = &log.calls[before + 2];
-            assert!(is_expand(last, &log.calls[d].out, b"exported", &log.calls[h].out, len));
-            assert!(rk::eq(&out, &last.out));
+            assert!(rk::eqn(&out, &log.calls[2].out, len));
             forget(out);
         }
         Err(e) => { forget(e); assert!(false, "export failed"); }
     }
-    forget(o);
-    forget(ctx);
+    forget(ks);
     forget(log);
     kani::cover!(true);
 }
@@ -436,16 +429,11 @@ zstubs! {
             Ok(o) => {
                 assert!(log.calls.len() == 11);
                 assert!(is_extract(&log.calls[0], &joiner, &psk));
-                assert!(is_expand(&log.calls[1], &log.calls[0].out, b"epoch", &ctx_enc, NH));
-                let es = log.calls[1].out.clone();
-                match find_expand(&log, &es, b"confirm", &[], NH) {
-                    Some(i) => assert!(rk::eq(&o.confirmation_key, &log.calls[i].out)),
-                    None => assert!(false),
-                }
-                match find_expand(&log, &es, b"init", &[], NH) {
-                    Some(i) => assert!(rk::eq(&o.init_secret, &log.calls[i].out)),
-                    None => assert!(false),
-                }
+                assert!(is_expand(&log.calls[1], &rk::fix::<NH>(&log.calls[0].out), b"epoch", &ctx_enc, NH));
+                let es = rk::fix::<NH>(&log.calls[1].out);
+                assert!(derived_from(&log, 2, 11, false, &es, b"confirm", &[], NH, &o.confirmation_key));
+                assert!(derived_from(&log, 2, 11, false, &es, b"init", &[], NH, &o.init_secret));
+                assert!(derived_from(&log, 2, 11, false, &es, b"exporter", &[], NH, &o.exporter_secret));
                 forget(o);
             }
             Err(e) => { forget(e); assert!(false); }
@@ -469,15 +457,10 @@ zstubs! {
             Ok((key, nonce)) => {
                 assert!(log.calls.len() == 4);
                 assert!(is_extract(&log.calls[0], &joiner, &psk));
-                assert!(is_expand(&log.calls[1], &log.calls[0].out, b"welcome", &[], NH));
-                let ws = log.calls[1].out.clone();
-                match (find_expand(&log, &ws, b"key", &[], NK), find_expand(&log, &ws, b"nonce", &[], NN)) {
-                    (Some(k), Some(n)) => {
-                        assert!(rk::eq(&key, &log.calls[k].out));
-                        assert!(rk::eq(&nonce, &log.calls[n].out));
-                    }
-                    _ => assert!(false),
-                }
+                assert!(is_expand(&log.calls[1], &rk::fix::<NH>(&log.calls[0].out), b"welcome", &[], NH));
+                let ws = rk::fix::<NH>(&log.calls[1].out);
+                assert!(derived_from(&log, 2, 4, false, &ws, b"key", &[], NK, &key), "welcome key");
+                assert!(derived_from(&log, 2, 4, false, &ws, b"nonce", &[], NN, &nonce), "welcome nonce");
                 forget(key);
                 forget(nonce);
             }
@@ -522,15 +505,17 @@ fn transcript_case(app: bool, which: u8) {
     match confirmed_transcript_hash_create(&uf, vec_of(interim_prev), &content) {
         Ok(cth) => {
             assert!(log.calls.len() == 1 && log.calls[0].f == F::Hash);
-            assert!(rk::eq(&log.calls[0].a, &rk::concat(&interim_prev, &want_input)), "Hash(interim[n-1] || wire_format || FramedContent || signature)");
-            assert!(rk::eq(&cth, &log.calls[0].out));
+            assert!(rk::eq(&rk::concat(&interim_prev, &want_input), &log.calls[0].a), "Hash(interim[n-1] || wire_format || FramedContent || signature)");
+            assert!(rk::eqn(&cth, &log.calls[0].out, NH));
+            let cth = rk::fix::<NH>(&cth).to_vec();
             // confirmation tag over it
             let ck = vec_of(any_bytes::<NH>());
             match confirmation_tag_create(&ck, cth.clone(), &uf) {
                 Ok(tag) => {
                     assert!(log.calls.len() == 2 && log.calls[1].f == F::Mac);
-                    assert!(rk::eq(&log.calls[1].a, &ck) && rk::eq(&log.calls[1].b, &cth), "MAC(confirmation_key, confirmed_transcript_hash)");
-                    assert!(rk::eq(&tag, &log.calls[1].out));
+                    assert!(rk::eq(&ck, &log.calls[1].a) && rk::eq(&cth, &log.calls[1].b), "MAC(confirmation_key, confirmed_transcript_hash)");
+                    assert!(rk::eqn(&tag, &log.calls[1].out, NH));
+                    let tag = rk::fix::<NH>(&tag).to_vec();
                     // interim hash
                     let tag_obj = confirmation_tag_from(tag.clone());
                     match interim_transcript_hash_create(&uf, cth.clone(), &tag_obj) {
@@ -538,8 +523,8 @@ fn transcript_case(app: bool, which: u8) {
                             assert!(log.calls.len() == 3 && log.calls[2].f == F::Hash);
                             let mut inp = Vec::with_capacity(8);
                             rk::opaque(&mut inp, &tag);
-                            assert!(rk::eq(&log.calls[2].a, &rk::concat(&cth, &inp)), "Hash(confirmed || opaque confirmation_tag<V>)");
-                            assert!(rk::eq(&ith, &log.calls[2].out));
+                            assert!(rk::eq(&rk::concat(&cth, &inp), &log.calls[2].a), "Hash(confirmed || opaque confirmation_tag<V>)");
+                            assert!(rk::eqn(&ith, &log.calls[2].out, NH));
                             forget(ith);
                         }
                         Err(e) => { forget(e); assert!(false); }
@@ -583,9 +568,9 @@ fn membership_case(app: bool, which: u8) {
     match membership_tag_create(&content, &ctx, &mk, &uf) {
         Ok(t) => {
             assert!(log.calls.len() == 1 && log.calls[0].f == F::Mac);
-            assert!(rk::eq(&log.calls[0].a, &mk), "MAC key is the membership key");
-            assert!(rk::eq(&log.calls[0].b, &want), "MAC input is FramedContentTBS || FramedContentAuthData");
-            assert!(rk::eq(&t, &log.calls[0].out));
+            assert!(rk::eq(&mk, &log.calls[0].a), "MAC key is the membership key");
+            assert!(rk::eq(&want, &log.calls[0].b), "MAC input is FramedContentTBS || FramedContentAuthData");
+            assert!(rk::eqn(&t, &log.calls[0].out, NH));
             forget(t);
         }
         Err(e) => { forget(e); assert!(false); }
@@ -595,9 +580,9 @@ fn membership_case(app: bool, which: u8) {
     forget(log);
     kani::cover!(true);
 }
-zstubs! { #[kani::unwind(48)] fn c13_membership_tag_commit_member() { membership_case(false, 0); } }
-zstubs! { #[kani::unwind(48)] fn c13_membership_tag_application_member() { membership_case(true, 0); } }
-zstubs! { #[kani::unwind(48)] fn c13_membership_tag_commit_external() { membership_case(false, 1); } }
+zstubs! { #[kani::unwind(90)] fn c13_membership_tag_commit_member() { membership_case(false, 0); } }
+zstubs! { #[kani::unwind(90)] fn c13_membership_tag_application_member() { membership_case(true, 0); } }
+zstubs! { #[kani::unwind(90)] fn c13_membership_tag_commit_external() { membership_case(false, 1); } }
 
 // ------------------------------------------------------------------------ path and sender data
 
@@ -614,10 +599,11 @@ zstubs! {
         let c = g.next_secret();
         match (a, b, c) {
             (Ok(a), Ok(b), Ok(c)) => {
-                assert!(rk::eq(&a, &start), "first path secret is the given one");
+                assert!(rk::eqn(&a, &start, NH), "first path secret is the given one");
+                let b_a = rk::fix::<NH>(&b);
                 assert!(log.calls.len() == 2);
-                assert!(is_expand(&log.calls[0], &start, b"path", &[], NH) && rk::eq(&b, &log.calls[0].out));
-                assert!(is_expand(&log.calls[1], &b, b"path", &[], NH) && rk::eq(&c, &log.calls[1].out));
+                assert!(is_expand(&log.calls[0], &start, b"path", &[], NH) && rk::eqn(&b, &log.calls[0].out, NH));
+                assert!(is_expand(&log.calls[1], &b_a, b"path", &[], NH) && rk::eqn(&c, &log.calls[1].out, NH));
                 forget(a); forget(b); forget(c);
             }
             (a, b, c) => { forget(a); forget(b); forget(c); assert!(false); }
@@ -639,7 +625,7 @@ zstubs! {
             Ok((sk, pk)) => {
                 assert!(log.calls.len() == 1 && is_expand(&log.calls[0], &ps, b"node", &[], NH));
                 // the model's kem_derive returns its input as both keys
-                assert!(rk::eq(pk.as_ref(), &log.calls[0].out), "KEM.DeriveKeyPair is fed the node secret");
+                assert!(rk::eqn(pk.as_ref(), &log.calls[0].out, NH), "KEM.DeriveKeyPair is fed the node secret");
                 forget(sk); forget(pk);
             }
             Err(e) => { forget(e); assert!(false); }
@@ -660,12 +646,8 @@ fn sender_data_case<const CL: usize>() {
     match sender_data_key_nonce(&uf, secret.clone(), &ct) {
         Ok((key, nonce)) => {
             assert!(log.calls.len() == 2);
-            match (find_expand(&log, &secret, b"key", &ct[..sample_len], NK), find_expand(&log, &secret, b"nonce", &ct[..sample_len], NN)) {
-                (Some(k), Some(n)) => {
-                    assert!(rk::eq(&key, &log.calls[k].out) && rk::eq(&nonce, &log.calls[n].out));
-                }
-                _ => assert!(false, "key/nonce not derived from the ciphertext sample"),
-            }
+            assert!(derived_from(&log, 0, 2, false, &secret, b"key", &ct[..sample_len], NK, &key), "key derived from the ciphertext sample");
+            assert!(derived_from(&log, 0, 2, false, &secret, b"nonce", &ct[..sample_len], NN, &nonce), "nonce derived from the ciphertext sample");
             forget(key); forget(nonce);
         }
         Err(e) => { forget(e); assert!(false); }
@@ -709,7 +691,7 @@ fn psk_cut_case<const N: usize>(resumption_first: bool, check_label: bool) {
         Ok(s) => {
             assert!(log.calls.len() == 3 * N);
             let zero = rk::zeros(NH);
-            let mut running = rk::zeros(NH);
+            let mut running = [0u8; NH];
             let mut i = 0;
             while i < N {
                 let kind = if resumption_first && i == 0 {
@@ -719,18 +701,18 @@ fn psk_cut_case<const N: usize>(resumption_first: bool, check_label: bool) {
                 };
                 assert!(is_extract(&log.calls[3 * i], &zero, &values[i]), "psk_extracted = Extract(0, psk_i)");
                 let c = &log.calls[3 * i + 1];
-                assert!(c.f == F::Expand && c.len == NH && rk::eq(&c.a, &log.calls[3 * i].out), "psk_input is expanded from psk_extracted, length Nh");
+                assert!(c.f == F::Expand && c.len == NH && rk::eq(&rk::fix::<NH>(&log.calls[3 * i].out), &c.a), "psk_input is expanded from psk_extracted, length Nh");
                 if check_label {
-                    assert!(rk::eq(&c.b, b"derived psk"), "label is derived psk");
+                    assert!(rk::eq(b"derived psk", &c.b), "label is derived psk");
                 } else {
                     let label = rk::psk_label(&kind, &nonces[i], i as u16, N as u16);
-                    assert!(rk::eq(&c.b, &label), "context is PSKLabel(id_i, nonce_i, index i, count n)");
+                    assert!(rk::eq(&label, &c.b), "context is PSKLabel(id_i, nonce_i, index i, count n)");
                 }
-                assert!(is_extract(&log.calls[3 * i + 2], &log.calls[3 * i + 1].out, &running), "psk_secret_i+1 = Extract(psk_input_i, psk_secret_i)");
-                running = log.calls[3 * i + 2].out.clone();
+                assert!(is_extract(&log.calls[3 * i + 2], &rk::fix::<NH>(&log.calls[3 * i + 1].out), &running), "psk_secret_i+1 = Extract(psk_input_i, psk_secret_i)");
+                running = rk::fix::<NH>(&log.calls[3 * i + 2].out);
                 i += 1;
             }
-            assert!(rk::eq(&s, &running), "result is the last chained secret");
+            assert!(rk::eqn(&s, &running, NH), "result is the last chained secret");
             forget(s);
         }
         Err(e) => { forget(e); assert!(false, "psk calculation failed"); }
@@ -755,4 +737,286 @@ psk_cut!(c18_psk_cut_ctx_2_external, 2, false, false, mls_rs::verif::derive::kdf
 psk_cut!(c18_psk_cut_ctx_2_mixed, 2, true, false, mls_rs::verif::derive::kdf_expand_with_label_ctx_only, 20);
 psk_cut!(c18_psk_cut_label_1, 1, false, true, mls_rs::verif::derive::kdf_expand_with_label_label_only, 14);
 psk_cut!(c18_psk_cut_label_2, 2, true, true, mls_rs::verif::derive::kdf_expand_with_label_label_only, 14);
+
+
+
+// ===================================================================================================
+// Call-site argument harnesses: `kdf_expand_with_label` is replaced (kani::stub) by a stand-in that hands
+// (label, context) to the provider as info = [label.len()] ++ label ++ context. These decide WHICH
+// secret / label / context / length reaches every ExpandWithLabel call of a derivation; the KDFLabel
+// encoding of the real function is decided by the c13_expand_* harnesses. Together: the full formula.
+
+fn plain_info(label: &[u8], context: &[u8]) -> Vec<u8> {
+    let mut v = Vec::with_capacity(1 + label.len() + context.len());
+    v.push(label.len() as u8);
+    let mut i = 0;
+    while i < label.len() { v.push(label[i]); i += 1; }
+    let mut i = 0;
+    while i < context.len() { v.push(context[i]); i += 1; }
+    v
+}
+
+fn is_expand_plain(c: &Call, prk: &[u8], label: &[u8], context: &[u8], len: usize) -> bool {
+    c.f == F::Expand && c.len == len && rk::eq(prk, &c.a) && rk::eq(&plain_info(label, context), &c.b) && c.out.len() == len
+}
+
+fn find_expand_plain(log: &Log, prk: &[u8], label: &[u8], context: &[u8], len: usize) -> Option<usize> {
+    let mut found = None;
+    let mut i = 0;
+    while i < log.calls.len() {
+        if is_expand_plain(&log.calls[i], prk, label, context, len) { found = Some(i); }
+        i += 1;
+    }
+    found
+}
+
+/// Is `field` the output of some call in log[lo..hi] that is ExpandWithLabel(prk, label, context, len)?
+/// (Concrete indices only: a symbolic index into the log is expensive for the model checker, and a
+/// fixed position would forbid harmless reorderings of independent derivations.)
+fn derived_from(log: &Log, lo: usize, hi: usize, plain: bool, prk: &[u8], label: &[u8], context: &[u8], len: usize, field: &[u8]) -> bool {
+    let mut ok = false;
+    let mut j = lo;
+    while j < hi {
+        let c = &log.calls[j];
+        let m = if plain { is_expand_plain(c, prk, label, context, len) } else { is_expand(c, prk, label, context, len) };
+        if m && rk::eqn(field, &c.out, len) {
+            ok = true;
+        }
+        j += 1;
+    }
+    ok
+}
+
+macro_rules! pstubs {
+    ($(#[$m:meta])* fn $name:ident() $body:block) => {
+        #[kani::proof]
+        $(#[$m])*
+        #[kani::stub(mls_rs::group::key_schedule::kdf_expand_with_label, mls_rs::verif::derive::kdf_expand_with_label_plain)]
+        #[kani::stub(zeroize::optimization_barrier, crate::stubs::optimization_barrier_stub)]
+        #[kani::stub(zeroize::volatile_set, crate::stubs::volatile_set_stub)]
+        fn $name() $body
+    };
+}
+
+pstubs! {
+    #[kani::unwind(36)]
+    fn c13_args_key_schedule_from_key_schedule() {
+        let mut log = Log::new(16);
+        let uf = Uf::new(&mut log);
+        let init = vec_of(any_bytes::<NH>());
+        let commit = vec_of(any_bytes::<NH>());
+        let psk = vec_of(any_bytes::<NH>());
+        let (ctx, ctx_enc) = sym_context();
+        let last = key_schedule_with_init(init.clone());
+        match from_key_schedule_v(&last, commit.clone(), &ctx, 4, psk.clone(), &uf) {
+            Ok(o) => {
+                assert!(log.calls.len() == 13, "2 extracts + 2 context expansions + 9 DeriveSecret");
+                assert!(is_extract(&log.calls[0], &init, &commit), "joiner seed = Extract(init_secret, commit_secret)");
+                let seed = rk::fix::<NH>(&log.calls[0].out);
+                assert!(is_expand_plain(&log.calls[1], &seed, b"joiner", &ctx_enc, NH), "joiner = ExpandWithLabel(seed, joiner, GroupContext, Nh)");
+                let joiner = rk::fix::<NH>(&log.calls[1].out);
+                assert!(rk::eqn(&o.joiner_secret, &joiner, NH));
+                assert!(is_extract(&log.calls[2], &joiner, &psk), "epoch seed = Extract(joiner_secret, psk_secret)");
+                let eseed = rk::fix::<NH>(&log.calls[2].out);
+                assert!(is_expand_plain(&log.calls[3], &eseed, b"epoch", &ctx_enc, NH), "epoch secret = ExpandWithLabel(seed, epoch, GroupContext, Nh)");
+                let es = rk::fix::<NH>(&log.calls[3].out);
+                macro_rules! derived {
+                    ($field:expr, $label:expr) => {
+                        assert!(derived_from(&log, 4, 13, true, &es, $label, &[], NH, &$field), "secret is DeriveSecret(epoch_secret, label)");
+                    };
+                }
+                derived!(o.sender_data_secret, b"sender data");
+                derived!(o.exporter_secret, b"exporter");
+                derived!(o.external_secret, b"external");
+                derived!(o.confirmation_key, b"confirm");
+                derived!(o.membership_key, b"membership");
+                derived!(o.resumption_secret, b"resumption");
+                derived!(o.authentication_secret, b"authentication");
+                derived!(o.init_secret, b"init");
+                match &o.encryption_secret {
+                    Some(root) => { derived!(*root, b"encryption"); }
+                    None => assert!(false, "secret tree root missing"),
+                }
+                assert!(o.secret_tree_nodes == 1);
+                forget(o);
+            }
+            Err(e) => { forget(e); assert!(false, "derivation failed"); }
+        }
+        forget(last);
+        forget(ctx);
+        forget(log);
+        kani::cover!(true);
+    }
+}
+
+pstubs! {
+    #[kani::unwind(36)]
+    fn c13_args_key_schedule_from_joiner() {
+        let mut log = Log::new(16);
+        let uf = Uf::new(&mut log);
+        let joiner = vec_of(any_bytes::<NH>());
+        let psk = vec_of(any_bytes::<NH>());
+        let (ctx, ctx_enc) = sym_context();
+        match from_joiner_v(&uf, joiner.clone(), &ctx, 4, psk.clone()) {
+            Ok(o) => {
+                assert!(log.calls.len() == 11);
+                assert!(is_extract(&log.calls[0], &joiner, &psk));
+                assert!(is_expand_plain(&log.calls[1], &rk::fix::<NH>(&log.calls[0].out), b"epoch", &ctx_enc, NH));
+                let es = rk::fix::<NH>(&log.calls[1].out);
+                assert!(derived_from(&log, 2, 11, true, &es, b"confirm", &[], NH, &o.confirmation_key));
+                assert!(derived_from(&log, 2, 11, true, &es, b"init", &[], NH, &o.init_secret));
+                assert!(derived_from(&log, 2, 11, true, &es, b"exporter", &[], NH, &o.exporter_secret));
+                assert!(derived_from(&log, 2, 11, true, &es, b"membership", &[], NH, &o.membership_key));
+                assert!(derived_from(&log, 2, 11, true, &es, b"sender data", &[], NH, &o.sender_data_secret));
+                forget(o);
+            }
+            Err(e) => { forget(e); assert!(false); }
+        }
+        forget(ctx);
+        forget(log);
+        kani::cover!(true);
+    }
+}
+
+// MLS-Exporter(Label, Context, Length) = ExpandWithLabel(DeriveSecret(exporter_secret, Label), "exported", Hash(Context), Length)
+fn export_args_case<const L: usize, const C: usize>(len: usize) {
+    let mut log = Log::new(4);
+    let uf = Uf::new(&mut log);
+    let exporter = vec_of(any_bytes::<NH>());
+    let ks = key_schedule_with_exporter(exporter.clone());
+    let label = vec_of(any_bytes::<L>());
+    let context = vec_of(any_bytes::<C>());
+    match ks.export_secret(&label, &context, len, &uf) {
+        Ok(out) => {
+            assert!(log.calls.len() == 3, "DeriveSecret, Hash(context), ExpandWithLabel - for every context, the empty one included");
+            let c0 = &log.calls[0];
+            let c1 = &log.calls[1];
+            let d0 = is_expand_plain(c0, &exporter, &label, &[], NH);
+            let h1 = c1.f == F::Hash && rk::eq(&context, &c1.a);
+            let d1 = is_expand_plain(c1, &exporter, &label, &[], NH);
+            let h0 = c0.f == F::Hash && rk::eq(&context, &c0.a);
+            assert!((d0 && h1) || (d1 && h0), "DeriveSecret(exporter_secret, label) and Hash(context) are both computed");
+            let o0 = rk::fix::<NH>(&c0.out);
+            let o1 = rk::fix::<NH>(&c1.out);
+            if d0 && h1 {
+                assert!(is_expand_plain(&log.calls[2], &o0, b"exported", &o1, len), "ExpandWithLabel(derived, exported, Hash(context), len)");
+            } else {
+                assert!(is_expand_plain(&log.calls[2], &o1, b"exported", &o0, len), "ExpandWithLabel(derived, exported, Hash(context), len)");
+            }
+            assert!(rk::eqn(&out, &log.calls[2].out, len));
+            forget(out);
+        }
+        Err(e) => { forget(e); assert!(false, "export failed"); }
+    }
+    forget(ks);
+    forget(log);
+    kani::cover!(true);
+}
+pstubs! { #[kani::unwind(24)] fn c13_args_export_l0_c0_len0() { export_args_case::<0, 0>(0); } }
+pstubs! { #[kani::unwind(24)] fn c13_args_export_l3_c0_len2() { export_args_case::<3, 0>(2); } }
+pstubs! { #[kani::unwind(24)] fn c13_args_export_l3_c2_len5() { export_args_case::<3, 2>(5); } }
+
+pstubs! {
+    #[kani::unwind(24)]
+    fn c13_args_export_deleted() {
+        // an exporter that was deleted refuses to export (no KDF call at all)
+        let mut log = Log::new(2);
+        let uf = Uf::new(&mut log);
+        let mut ks = key_schedule_with_exporter(vec_of(any_bytes::<NH>()));
+        ks.delete_exporter();
+        match ks.export_secret(b"x", b"", 2, &uf) {
+            Ok(o) => { forget(o); assert!(false, "deleted exporter still exports"); }
+            Err(e) => forget(e),
+        }
+        assert!(log.calls.is_empty());
+        forget(ks);
+        forget(log);
+        kani::cover!(true);
+    }
+}
+
+// Secret tree, one level: left/right = ExpandWithLabel(parent, tree, left|right, Nh); parent secret deleted.
+fn consume_root_args_case(leaf_count: u32) {
+    let mut log = Log::new(3);
+    let uf = Uf::new(&mut log);
+    let enc = vec_of(any_bytes::<NH>());
+    match consume_root(&uf, leaf_count, enc.clone()) {
+        Ok((l, r, root_gone, n)) => {
+            assert!(log.calls.len() == 2);
+            let (li, ri) = if is_expand_plain(&log.calls[0], &enc, b"tree", b"left", NH) { (0, 1) } else { (1, 0) };
+            assert!(is_expand_plain(&log.calls[li], &enc, b"tree", b"left", NH));
+            assert!(is_expand_plain(&log.calls[ri], &enc, b"tree", b"right", NH));
+            match (l, r) {
+                (Some(l), Some(r)) => {
+                    assert!(rk::eqn(&l, &log.calls[li].out, NH), "left child holds the left output");
+                    assert!(rk::eqn(&r, &log.calls[ri].out, NH), "right child holds the right output");
+                    forget(l);
+                    forget(r);
+                }
+                _ => assert!(false, "children not stored"),
+            }
+            assert!(root_gone, "the consumed secret is still in the tree");
+            assert!(n == 2);
+        }
+        Err(e) => { forget(e); assert!(false); }
+    }
+    forget(log);
+    kani::cover!(true);
+}
+pstubs! { #[kani::unwind(24)] fn c13_args_secret_tree_consume_root_2() { consume_root_args_case(2); } }
+
+
+// PSK chain through the fixed-array adapter (all lengths statically known), full label encoding.
+fn psk_fixed_case(n: usize, resumption_usage: u8) {
+    let resumption_first = resumption_usage != 0;
+    let mut log = Log::new(7);
+    let uf = Uf::new(&mut log);
+    let id0 = any_bytes::<1>();
+    let id1 = any_bytes::<1>();
+    let n0 = any_bytes::<1>();
+    let n1 = any_bytes::<1>();
+    let v0 = any_bytes::<2>();
+    let v1 = any_bytes::<2>();
+    // NB: no arrays of arrays here - `&[[u8; 2]; 2][1]` as a slice gave a spurious CBMC failure that did
+    // not replay natively (Kani 0.68); select with `if` instead.
+    // the usage selects an enum variant: concrete per instance (a symbolic one exhausted 19 GB)
+    let usage: u8 = resumption_usage;
+    let r_epoch: u64 = kani::any();
+    let rf = if resumption_first { Some((usage, r_epoch)) } else { None };
+    match psk_calculate_fixed(n, [id0[0], id1[0]], [n0[0], n1[0]], [v0[0], v0[1], v1[0], v1[1]], rf, &uf) {
+        Ok(s) => {
+            assert!(log.calls.len() == 3 * n);
+            let zero = [0u8; NH];
+            let mut running = [0u8; NH];
+            let mut i = 0;
+            while i < n {
+                let (id, nonce, value) = if i == 0 { (&id0, &n0, &v0) } else { (&id1, &n1, &v1) };
+                let kind = if resumption_first && i == 0 {
+                    rk::PskKind::Resumption(usage, id, r_epoch)
+                } else {
+                    rk::PskKind::External(id)
+                };
+                let label = rk::psk_label(&kind, nonce, i as u16, n as u16);
+                assert!(is_extract(&log.calls[3 * i], &zero, value), "psk_extracted = Extract(0, psk_i)");
+                let ex = rk::fix::<NH>(&log.calls[3 * i].out);
+                assert!(is_expand(&log.calls[3 * i + 1], &ex, b"derived psk", &label, NH), "psk_input = ExpandWithLabel(psk_extracted, derived psk, PSKLabel)");
+                let inp = rk::fix::<NH>(&log.calls[3 * i + 1].out);
+                assert!(is_extract(&log.calls[3 * i + 2], &inp, &running), "psk_secret_i+1 = Extract(psk_input_i, psk_secret_i)");
+                running = rk::fix::<NH>(&log.calls[3 * i + 2].out);
+                i += 1;
+            }
+            assert!(rk::eqn(&s, &running, NH), "result is the last chained secret");
+            forget(s);
+        }
+        Err(e) => { forget(e); assert!(false, "psk calculation failed"); }
+    }
+    forget(log);
+    kani::cover!(true);
+}
+zstubs! { #[kani::unwind(40)] fn c18_psk_fixed_1_external() { psk_fixed_case(1, 0); } }
+zstubs! { #[kani::unwind(40)] fn c18_psk_fixed_1_resumption_application() { psk_fixed_case(1, 1); } }
+zstubs! { #[kani::unwind(40)] fn c18_psk_fixed_1_resumption_reinit() { psk_fixed_case(1, 2); } }
+zstubs! { #[kani::unwind(40)] fn c18_psk_fixed_1_resumption_branch() { psk_fixed_case(1, 3); } }
+zstubs! { #[kani::unwind(40)] fn c18_psk_fixed_2_external() { psk_fixed_case(2, 0); } }
+zstubs! { #[kani::unwind(40)] fn c18_psk_fixed_2_mixed() { psk_fixed_case(2, 1); } }
 
